@@ -47,6 +47,8 @@ type Fault struct {
 //	mangle      an intermediary rewrites one piece of the request head: Arg says which ("query:name", "header:Name",
 //	            "cookie:name", "path:i" = i-th path segment, or by position "query#i", "header#i", "cookie#i"), Val is
 //	            the new text (for query and path: as it goes on the wire, i.e. already escaped - or deliberately not)
+//	lie-length  the request head declares a Content-Length of Arg (absurdly large) although the body is as short as it
+//	            is; the connection breaks after the last body byte (an oversized declared size)
 //	dup-query   the query parameter named Arg (or "#i": the i-th) is sent twice
 //	flip        the byte at wire offset At of the request is XORed with 0x20 (unstructured corruption)
 //	append      a re-framing intermediary forwards the request with Arg appended to the body (framing stays valid)
@@ -195,6 +197,14 @@ func (t *SimTransport) Do(req *http.Request) (*http.Response, error) {
 		}
 	case "mangle":
 		if mangle(req, f.Arg, f.Val) {
+			ci.Rec.fire()
+		}
+	case "lie-length":
+		if n, err := strconv.ParseInt(f.Arg, 10, 64); err == nil && req.Body != nil && req.Body != http.NoBody {
+			// net/http's request writer sends the head with this length, copies the body and then notices that it
+			// is shorter: the writer task ends with an error and the peer sees a broken connection after the body
+			req.ContentLength = n
+			req.TransferEncoding = nil
 			ci.Rec.fire()
 		}
 	}
